@@ -68,9 +68,9 @@ def _mk(name, params):
   return ns[name]
 
 
-gin.configurable('fn', module='a.b')(_mk('fn', 'pqr'))
+gin.configurable('fn', module='a.b')(_mk('fn', 'pqrPQ'))
 gin.configurable('fn', module='c.b')(_mk('fn', 'pq'))
-gin.configurable('gn')(_mk('gn', 'pq'))          # exec'ed without __name__: selector is bare 'gn'
+gin.configurable('gn')(_mk('gn', 'pqP'))          # exec'ed without __name__: selector is bare 'gn'
 gin.configurable('Gn', module='x')(_mk('Gn', 'pq'))
 
 _m = types.ModuleType('c06m')
@@ -89,7 +89,9 @@ gin.register(module='mod')(K)
 """, _m.__dict__)  # pylint: disable=exec-used
 
 SELECTORS = {  # as written in configs -> (params, name used for alphabetical order)
-    'a.b.fn': ('pqr', 'fn'), 'c.b.fn': ('pq', 'fn'), 'gn': ('pq', 'gn'), 'x.Gn': ('pq', 'gn'),
+    # parameter names differing only in case (p / P): 'parameters sorted' must still be a total,
+    # order-independent order
+    'a.b.fn': ('pqrPQ', 'fn'), 'c.b.fn': ('pq', 'fn'), 'gn': ('pqP', 'gn'), 'x.Gn': ('pq', 'gn'),
     'mod.K': ('pq', 'k'), 'mod.K.meth': ('pq', 'k.meth')}
 FULL = sorted(SELECTORS)
 SCOPES = ['', '', 's', 'S', 's/t', 'T/s']
@@ -658,12 +660,17 @@ def strategy():
 @st.composite
 def _static_case(draw):
   keys = draw(st.lists(
-      st.tuples(st.sampled_from(SCOPES), st.sampled_from(FULL), st.sampled_from('pq')),
+      st.sampled_from(FULL).flatmap(lambda sel: st.tuples(
+          st.sampled_from(SCOPES), st.just(sel), st.sampled_from(SELECTORS[sel][0]))),
       min_size=1, max_size=12, unique=True))
   # make case-variant collisions likely: mirror one key into its case twin
   if draw(st.booleans()):
     s, sel, p = keys[0]
     twin = ({'s': 'S', 'S': 's'}.get(s, s), {'gn': 'x.Gn', 'x.Gn': 'gn'}.get(sel, sel), p)
+    if sel in ('a.b.fn', 'gn') and p in 'pP' and draw(st.booleans()):
+      twin = (s, sel, p.swapcase())
+    if twin[2] not in SELECTORS[twin[1]][0]:
+      twin = (twin[0], twin[1], twin[2].lower())
     if twin not in keys:
       keys.append(twin)
   bindings = [[s, sel, p, draw(_value()), draw(st.sampled_from(['parse', 'block', 'str', 'tuple']))]
